@@ -765,3 +765,41 @@ def struct_import_allows_absent_optional_members(ctx):
             ctx.check(v, f'{f.qualname}:optional members may be absent on import', c, 'check_type(value, True)',
                       f'`{src(c)}` is reached from import_value without allow_optional: a struct value lacking an optional member - valid, and exported like that by the '
                       'client side type - is refused with "missing struct elements" on its way back in', f)
+
+
+@rule('C02.R14', min_instances=1)
+def optional_members_may_be_absent_on_the_client_or_on_request(ctx):
+    """StructOf.check_type (with the helper methods it uses): the optional members are taken out of the required ones when the type
+    is a client side type OR the caller allows it - decided by fixing the two conditions to each combination and asking whether
+    the use of self.optional that depends on them is reached: under (client, not allowed), (not client, allowed) and (both) it is,
+    under (neither) it is not.  `if not allow_optional or not self.client: return ()` (De Morgan slip) needs BOTH, and every
+    value lacking an optional member is refused on import and on the client"""
+    m = ctx.m
+    ci = m.cls(f'{DT}.StructOf')
+    ct = ci.methods.get('check_type')
+    if ct is None:
+        raise AnchorMissing('StructOf.check_type not found')
+    unit = [ct] + [ci.methods[c.func.attr] for c in calls_in(ct.node) if isinstance(c.func, ast.Attribute) and dotted(c.func.value) == 'self' and c.func.attr in ci.methods
+                   and c.func.attr != 'check_type']
+    g = next((h for h in unit if any(isinstance(x, ast.Attribute) and x.attr == 'client' and dotted(x.value) == 'self' for x in body_walk(h.node))), None)
+    if g is None:
+        raise AnchorMissing('test of self.client not found in StructOf.check_type and its helpers')
+    ctx.analysed(g)
+    params = [a.arg for a in g.node.args.args][1:]
+    flag = next((p_ for p_ in params if 'optional' in p_), None)
+    if flag is None:
+        raise AnchorMissing(f'{g.qualname} has no allow_optional parameter')
+    cfg = CFG(g.node, m, g.module)
+    uses = {i for n in cfg.nodes if n.ast is not None and not isinstance(n.ast, (ast.FunctionDef, ast.ClassDef))
+            for x in ast.walk(n.ast) if isinstance(x, ast.Attribute) and x.attr == 'optional' and dotted(x.value) == 'self' for i in [n.id]}
+
+    def reach(client, allowed):
+        return reach_under(cfg, g.node, {'self.client': client, flag: allowed}, exc=False)
+    cond = uses - reach(False, False)
+    if not cond:
+        ctx.undecided(f'{g.qualname}:optional members are omissible iff client or allow_optional', g.node, 'no use of self.optional that depends on the two conditions found', g)
+        return
+    bad_ = [(c_, a_) for c_, a_ in ((True, False), (False, True), (True, True)) if not (cond & reach(c_, a_))]
+    ctx.check(not bad_, f'{g.qualname}:optional members are omissible iff client or allow_optional', g.node, 'self.optional is applied under each of the three combinations',
+              f'with (client, allow_optional) = {bad_[0] if bad_ else ""} the optional members are NOT taken out of the required ones: a struct value without an optional member is '
+              'refused ("missing struct elements") where it has to be accepted - on import on the node, or on every use on the client', g)
